@@ -178,7 +178,10 @@ func c09Scripts(r *fw.Rand, scen *gen.Scenario, n int) []c09script {
 			delete(t, "run_summary")
 			delete(t, "history")
 		}
-		ops := []string{"start"}
+		// every script starts its session and then evaluates the same templates over everything that is shared between
+		// sessions (globals, fields, groups, flow), so that whatever is built lazily on first use is hit by all goroutines
+		// of a round at once — in particular in the first round of a process
+		ops := []string{"start", "eval_shared"}
 		for k := 0; k < r.Range(2, 6); k++ {
 			ops = append(ops, fw.Pick(r, []string{"resume", "resume", "reread", "inspect", "templates", "change_language", "eval", "query", "modifier", "localizables"}))
 		}
@@ -189,6 +192,9 @@ func c09Scripts(r *fw.Rand, scen *gen.Scenario, n int) []c09script {
 	}
 	return out
 }
+
+var c09SharedTemplates = []string{"@globals.org_name @globals.limit", "@globals", "@(json(globals))", "@fields", "@(json(contact.fields))", "@contact.groups", "@(json(contact.groups))",
+	"@run.flow @run.flow.name", "@(json(run.flow))", "@urns", "@contact.channel", "@(format_location(fields.state))", "@(has_group(contact.groups, \"x\").match)", "@trigger.params @trigger.type", "@(has_text(\"\").match)"}
 
 type c09shared struct {
 	sa    flows.SessionAssets
@@ -305,6 +311,18 @@ func runScript(sh *c09shared, sc *c09script, g int) (transcript []string, stamps
 				} else {
 					emit("change_language", f2)
 				}
+			}
+		case "eval_shared":
+			if session == nil || len(session.Runs()) == 0 {
+				break
+			}
+			run := session.Runs()[0]
+			if len(run.Path()) == 0 {
+				break
+			}
+			for _, t := range c09SharedTemplates {
+				out, _ := run.EvaluateTemplate(t, func(flows.Event) {})
+				emit("eval_shared", out)
 			}
 		case "eval":
 			if session == nil || len(session.Runs()) == 0 {
